@@ -97,7 +97,7 @@ def start(mod, tier, seed, max_parallel=None):
             specs.append(dict(name="%s:%s" % (c["file"][:-3], n), file=c["file"], func=n, path=path, line=lines[n] + 1,
                               timeout=c.get("timeout", 30)))
     if max_parallel is None:
-        max_parallel = int(os.environ.get("VERIF_X_PARALLEL", "6"))
+        max_parallel = int(os.environ.get("VERIF_X_PARALLEL", "8"))
     return Run(specs, max_parallel)
 
 
@@ -183,6 +183,15 @@ def summarize(done, wall):
 
 
 def replay(rec):
+    if rec.get("enumeration"):
+        p = subprocess.run([sys.executable, "-m", rec["enumeration"]], capture_output=True, text=True, env=_env(), cwd=ROOT, timeout=600)
+        res = json.loads(p.stdout.strip().splitlines()[-1])
+        hit = [v for v in res["violations"] if "T:" + v["name"] == rec["name"]]
+        if hit:
+            print("REPRODUCED %s: %s" % (rec["key"], hit[0]["info"]))
+            return 1
+        print("not reproduced")
+        return 0
     rep, info = replay_call(rec["file"], rec["func"], rec["call"])
     print("%s: %s" % (rec["call"], info))
     if rep:
